@@ -263,6 +263,9 @@ def run_l2(ctx):
             for _ in range(nvar):
                 variants.append(("cipher-cuts", rng.choice([1, 2, 3, 5, 7, 13, 64]), rng.random() < 0.5))
             variants.append(("plain-pieces", None, False))
+            for _ in range(ctx.pick(3, 12)):
+                variants.append(("multi-record-one-read", None, False))
+                variants.append(("multi-record-coalesced", None, True))
             for name, step, coalesce in variants:
                 k += 1
                 if base is not None and not ctx.mine(k):
@@ -277,11 +280,16 @@ def run_l2(ctx):
                     bench = tlsbench.Sandwich(loop, lambda: GeminiServerProtocol(h, None, up), backend=backend, log=log)
                     if step:
                         bench.cipher_cuts = lambda m, step=step: list(range(step, m, step))
-                    if not bench.handshake(coalesce_with=data if coalesce else None):
+                    pieces = None
+                    if name.startswith("multi-record"):
+                        pieces = bytesgen.split(data, bytesgen.random_cuts(rng, len(data), rng.choice([1, 1, 2, 3])))
+                    if not bench.handshake(coalesce_with=(pieces or data) if coalesce else None):
                         ctx.inconclusive_because(f"L2 handshake failed: {bench.error}")
                         continue
                     if not coalesce:
-                        if name == "plain-pieces":
+                        if name == "multi-record-one-read":
+                            bench.client_send_records(pieces)
+                        elif name == "plain-pieces":
                             for ch in bytesgen.split(data, bytesgen.random_cuts(rng, len(data), 3)):
                                 bench.client_send(ch)
                                 loop.advance(0.5)
